@@ -1,6 +1,8 @@
 """C10 — symbolic differentiation yields the true derivative."""
 from __future__ import annotations
 
+import cmath
+import itertools
 import math
 from fractions import Fraction as F
 
@@ -188,6 +190,12 @@ def c_diff(ctx, case):
                 ctx.fail("C10.diff", case, f"derivative-eval:{got[1]}",
                          f"d/d{wrt} of {e} is {de}; evaluating it at {pt} raised {got[1]}")
                 continue
+            if isinstance(got[1], (float, complex)) and not cmath.isfinite(got[1]) \
+                    and cmath.isfinite(complex(ref.d)):
+                # float overflow inside the derivative (huge**997 * 0 -> inf * 0 -> nan): the
+                # point is outside what binary floats can carry, not a statement about the rule
+                ctx.count("derivative_not_finite_in_floats")
+                continue
             try:
                 if alg and not isinstance(got[1], (float, complex)) \
                         and not isinstance(ref.d, (float, complex)):
@@ -203,6 +211,62 @@ def c_diff(ctx, case):
                          f"d/d{wrt} of {e} [{setting}] = {de}; at {pt} it evaluates to {got[1]!r} but "
                          f"the dual-number derivative is {ref.d!r}")
                 break
+
+
+@check("C10.refusal")
+def c_refusal(ctx, case):
+    """Non-smooth functions are refused unless allowed -- through every entry point (the
+    differentiate() wrapper, the mapper class used directly, the default and an explicit None),
+    and whatever was differentiated EARLIER in the process under a more permissive setting."""
+    e, order = case
+    entry = [
+        ("differentiate", lambda s: differentiate(e, "x", allowed_nonsmoothness=s), None),
+        ("mapper", lambda s: DifferentiationMapper(X, allowed_nonsmoothness=s)(e), None),
+    ]
+    for setting in order:
+        forb = forbidden(e, setting)
+        for name, fn, _ in entry:
+            ctx.case(None)
+            ctx.count("refusal_checks")
+            try:
+                fn(setting)
+                refused = False
+            except (ValueError, RuntimeError):
+                refused = True
+            except RecursionError:
+                raise
+            except Exception as ex:  # noqa: BLE001
+                ctx.fail("C10.refusal", case, f"crashed:{type(ex).__name__}",
+                         f"{name}({e}, {setting!r}) raised {type(ex).__name__}: {ex}")
+                continue
+            if refused != bool(forb):
+                ctx.fail("C10.refusal", case,
+                         f"{'refused-allowed' if refused else 'not-refused'}:{name}:{setting}",
+                         f"{name} on {e} under {setting!r} after {order[:order.index(setting)]}: "
+                         f"{'refused' if refused else 'returned a derivative'}, forbidden constructs "
+                         f"under that setting: {sorted(set(forb))}")
+    # defaults: no argument and an explicit None both mean "none"
+    forb = forbidden(e, "none")
+    for name, fn in (("differentiate()", lambda: differentiate(e, "x")),
+                     ("DifferentiationMapper(x)", lambda: DifferentiationMapper(X)(e)),
+                     ("DifferentiationMapper(x, None)",
+                      lambda: DifferentiationMapper(X, allowed_nonsmoothness=None)(e))):
+        ctx.case(None)
+        ctx.count("refusal_checks")
+        try:
+            fn()
+            refused = False
+        except (ValueError, RuntimeError):
+            refused = True
+        except RecursionError:
+            raise
+        except Exception as ex:  # noqa: BLE001
+            ctx.fail("C10.refusal", case, f"crashed:{type(ex).__name__}", f"{name}: {ex}")
+            continue
+        if refused != bool(forb):
+            ctx.fail("C10.refusal", case, f"default:{'refused-allowed' if refused else 'not-refused'}",
+                     f"{name} on {e}: {'refused' if refused else 'returned a derivative'}; with no "
+                     f"non-smoothness allowed the forbidden constructs are {sorted(set(forb))}")
 
 
 def _top(e):
@@ -250,6 +314,25 @@ def workload(ctx):
                 ctx.sample("random-" + ("algebraic" if alg else "transcendental"),
                            f"{e}  [{setting}]")
             ctx.run("C10.diff", (e, setting, alg, rng.randrange(10**9)))
+        # refusal histories: non-smooth constructs, bare and inside common subexpressions
+        math_ = var("math")
+        nons = [lambda a: p.Call(p.Lookup(math_, "fabs"), (a,)),
+                lambda a: p.Call(p.Lookup(math_, "copysign"), (a, Y)),
+                lambda a: p.If(p.Comparison(a, "<", 1), p.Power(a, 2), a),
+                lambda a: p.Call(p.Lookup(math_, "sin"), (a,)),
+                lambda a: pf.sign(a) if hasattr(pf, "sign") else p.Power(a, 3)]
+        wraps = [lambda t: t, lambda t: p.CommonSubexpression(t),
+                 lambda t: p.Product((p.CommonSubexpression(t, "w"), X)),
+                 lambda t: p.Sum((p.CommonSubexpression(p.Product((t, Y))), 1))]
+        orders = [["discontinuous", "continuous", "none"], ["none", "continuous", "discontinuous"],
+                  ["continuous", "none", "discontinuous"]]
+        for i, (mkn, wr, order) in enumerate(itertools.product(nons, wraps, orders)):
+            if not ctx.mine("refusal"):
+                continue
+            arg = rng.choice([X, p.Sum((X, Y)), p.Product((2, X))])
+            e = wr(mkn(arg))
+            ctx.case(("refusal", i), True, n=0)
+            ctx.run("C10.refusal", (e, order))
         for k, v in tr.handlers().items():
             ctx.count("handler:" + k, v)
         for k, v in tr.counts.items():
@@ -260,6 +343,7 @@ def workload(ctx):
     ctx.floor("compared_exactly", 3000)
     ctx.floor("float", 5000)
     ctx.floor("refused", 200)
+    ctx.floor("refusal_checks", 300)
     for h in ("map_sum", "map_product", "map_quotient", "map_power", "map_call", "map_if",
               "map_common_subexpression_uncached", "map_variable"):
         ctx.floor("handler:DifferentiationMapper." + h, 500)
